@@ -22,7 +22,11 @@ from harness import gen
 from harness.common import drv, errclass
 
 PID = "C15"
-THEOREMS = []  # filled at the bottom
+THEOREMS = ["copy_reads_equal", "copy_root_reads_equal", "mv_reads_equal_plain", "copy_frame", "copy_frame_new", "mv_frame",
+            "mv_source_gone_partial", "mv_source_gone_spec", "mv_source_gone_current_false", "d4_counterexample",
+            "mv_cross_eq_cp", "mv_cross_file_keeps_source", "list_exact", "d5_counterexample", "isCooler_total",
+            "create_append_frame", "create_root_append_frame", "create_w_replaces", "create_w_eq", "recreate_replaces",
+            "step_wf", "run_wf"]
 CHUNK = 1
 FANCHUNK = 75
 
